@@ -14,12 +14,12 @@ T = {
     'pod12': 'sim::Pod<12>', 'pod5': 'sim::Pod<5>',
     'trk9': 'sim::Tracked<9>', 'trk12': 'sim::Tracked<12>', 'trk24': 'sim::Tracked<24>',
     'mo9': 'sim::TrackedMO<9>', 'mo12': 'sim::TrackedMO<12>', 'thr9': 'sim::TrackedThrow<9>', 'thr12': 'sim::TrackedThrow<12>',
-    'str': 'std::string', 'up': 'std::unique_ptr<int>', 'pr': 'std::pair<std::uint32_t, std::uint32_t>',
+    'str': 'std::string', 'up': 'std::unique_ptr<int>', 'pr': 'std::pair<std::uint32_t, std::uint32_t>', 'sp12': 'sim::SelfPtr<12>', 'sp13': 'sim::SelfPtr<13>',
 }
 SIZEOF = {'u8': 1, 'u16': 2, 'u32': 4, 'u64': 8, 'i32': 4, 'ch': 1, 'by': 1, 'f32': 4, 'f64': 8, 'ptr': 8, 'sz': 8,
-          'pod12': 12, 'pod5': 5, 'trk9': 9, 'trk12': 12, 'trk24': 24, 'mo9': 9, 'mo12': 12, 'thr9': 9, 'thr12': 12, 'str': 32, 'up': 8, 'pr': 8}
+          'pod12': 12, 'pod5': 5, 'trk9': 9, 'trk12': 12, 'trk24': 24, 'mo9': 9, 'mo12': 12, 'thr9': 9, 'thr12': 12, 'str': 32, 'up': 8, 'pr': 8, 'sp12': 12, 'sp13': 13}
 INTEGRAL = {'u8', 'u16', 'u32', 'u64', 'sz'}
-NONTRIVIAL = {'trk9', 'trk12', 'trk24', 'mo9', 'mo12', 'thr9', 'thr12', 'str', 'up'}
+NONTRIVIAL = {'trk9', 'trk12', 'trk24', 'mo9', 'mo12', 'thr9', 'thr12', 'str', 'up', 'sp12', 'sp13'}
 TRACKED = {'trk9', 'trk12', 'trk24', 'mo9', 'mo12', 'thr9', 'thr12'}
 MOVEONLY = {'mo9', 'mo12', 'up'}
 REAL = {'str', 'up'}
@@ -159,6 +159,10 @@ def curated():
     a(make('thr_var', [P('p', 'u32'), P('v', 'thr12'), P('p', 'thr9')], 'all'))
     # no trivially copyable parameter at all: trivially constructible but not trivially copyable (std::pair) next to
     # non-trivial ones
+    # trivially destructible but not trivially copy/move constructible (objects know their own address)
+    a(make('sp_fx', [P('f', 'sp12'), P('p', 'u16'), P('p', 'sp13')], 'none'))
+    a(make('sp_var', [P('p', 'u32'), P('v', 'sp12', 8), P('p', 'sp13')], 'alld'))
+    a(make('sp_mix', [P('f', 'sp13'), P('p', 'u8'), P('v', 'sp12'), P('p', 'u32', 4)], 'ae'))
     a(make('pr_fx_trk', [P('f', 'pr'), P('p', 'trk9')], 'none'))
     a(make('pr_str', [P('p', 'pr'), P('f', 'str')], 'ae'))
     a(make('pr_var_trk', [P('p', 'u32'), P('v', 'pr'), P('p', 'trk12'), P('p', 'pr')], 'noned'))
@@ -195,7 +199,7 @@ def generated(seed, n):
         params = []
         family = r.below(4)  # 0 trivial ints, 1 trivial mixed, 2 tracked, 3 move-only
         pool = {0: ['u8', 'u16', 'u32', 'u64', 'by', 'ch'], 1: ['u8', 'u32', 'f32', 'f64', 'pod12', 'pod5', 'i32', 'ptr'],
-                2: ['trk9', 'trk12', 'trk24', 'u16', 'u8', 'f32', 'pr'], 3: ['mo9', 'mo12', 'u32', 'u8', 'pr']}[family]
+                2: ['trk9', 'trk12', 'trk24', 'u16', 'u8', 'f32', 'pr', 'sp12'], 3: ['mo9', 'mo12', 'u32', 'u8', 'pr']}[family]
         k = 0
         while k < length:
             kind = ['p', 'p', 'f', 'v'][r.below(4)]
